@@ -191,6 +191,12 @@ def build(sess):
         'call-site contracts of command/query (framing proved in C05): one write of the trimmed text, reply attributed to the request',
         'int.to_bytes / int.from_bytes follow the two\'s-complement reference semantics; int_of(str_of(n)) == n',
     )
+    # the device contracts stand in for EBB3.command / EBB3.query: their framing (one write of the trimmed text, reply attributed to
+    # the request, payload = reply minus name and one comma) is re-proved of the real bodies here, as in C05
+    from . import c05
+    kf = native('n_serial', 'kf_c05_1', {})
+    c05.check_request(sess, 'command', bool(kf.get('reproduces')))
+    c05.check_request(sess, 'query', False)
     check_int32(sess)
     check_nickname(sess)
     check_motors(sess)
